@@ -26,7 +26,7 @@ RULE = ('each evaluation = one (world, operation, fault site, errno) run: worlds
         '(exhaustive per world and operation), errnos drawn without replacement from the list (all of '
         'them in the thorough tier); non-trivial = the fault fired; distinct = distinct (event-log digest)')
 PLAN = {'quick': {'n': 300, 'budget_s': 90, 'block': 2, 'det': 3, 'run_timeout_s': 900},
-        'thorough': {'n': 1600, 'budget_s': 1200, 'block': 4, 'det': 4, 'run_timeout_s': 1800}}
+        'thorough': {'n': 3200, 'budget_s': 2400, 'block': 4, 'det': 4, 'run_timeout_s': 1800}}
 ASSUMPTIONS = ['faults are injected at Python-level calls; DirEntry.is_dir() and the fstat inside io.FileIO are not fault sites (DESIGN §9)',
                'ENOENT is never injected (it means absent); EINTR is retried below the seam by CPython']
 
